@@ -115,6 +115,11 @@ Proof.
   induction pgs as [|g r IH]; intros f H; [exact H|]. unfold put_all in *. simpl. apply IH. apply w_pg_put_nodup. exact H.
 Qed.
 
+Lemma put_pgs_frame k a y f : y <> k -> fget y (flat (put_pgs k a f)) = fget y (flat f).
+Proof. intros H. unfold put_pgs. destruct (apgs a); [reflexivity | apply w_pgs_frame; exact H]. Qed.
+Lemma put_pgs_rootlink k a f : rootlink (put_pgs k a f) = rootlink f.
+Proof. unfold put_pgs. destruct (apgs a); [reflexivity | apply w_pgs_rootlink]. Qed.
+
 Definition copy_frame_ok (t : tree) : Prop :=
   forall p f y, y <> p -> ~ In y (keys_of t) -> fget y (flat (save_copy p t f)) = fget y (flat f).
 
@@ -131,7 +136,7 @@ Lemma save_copy_frame t : copy_frame_ok t.
 Proof.
   induction t as [k a l IH] using tree_ind'. intros p f y Hp Hy. rewrite save_copy_eq. rewrite keys_of_eq in Hy.
   assert (Hk : y <> k) by (intros ->; apply Hy; left; reflexivity).
-  rewrite put_all_frame by exact Hk.
+  rewrite put_pgs_frame by exact Hk. rewrite put_all_frame by exact Hk.
   rewrite copy_kids_frame; [| exact IH | exact Hk | intros Hl; apply Hy; right; exact Hl].
   rewrite w_link_frame by exact Hp. apply w_entity_frame. exact Hk.
 Qed.
@@ -147,7 +152,7 @@ Qed.
 
 Lemma save_copy_rootlink t : forall p f, rootlink (save_copy p t f) = rootlink f.
 Proof.
-  induction t as [k a l IH] using tree_ind'. intros p f. rewrite save_copy_eq, put_all_rootlink.
+  induction t as [k a l IH] using tree_ind'. intros p f. rewrite save_copy_eq, put_pgs_rootlink, put_all_rootlink.
   rewrite copy_kids_rootlink; [rewrite w_link_rootlink; apply w_entity_rootlink|].
   rewrite Forall_forall in IH. intros c p' f' Hc. apply IH. exact Hc.
 Qed.
@@ -1173,6 +1178,24 @@ Proof.
     + intros g' Hg'. apply HG. right. exact Hg'.
 Qed.
 
+(* the final rewrite of the whole block set from memory *)
+Lemma rep_put_pgs C k a l f P : Rep (plug C (Node k a l)) f P -> Rep (plug C (Node k a l)) (put_pgs k a f) P.
+Proof.
+  intros R. unfold put_pgs. destruct (apgs a) as [|g0 gs] eqn:Ea; [exact R|].
+  destruct (rep_hole_node _ _ _ _ _ _ R) as [n [Hg Ha]]. pose proof (rep_hole_pgs _ _ _ _ _ _ R) as Hpg.
+  assert (G : Rep (plug C (Node k (with_pgs a (apgs a)) l)) (w_pgs k a f) P).
+  { eapply rep_set_pgs with (n := n).
+    - exact R.
+    - exact Hg.
+    - apply w_pgs_same. exact Hg.
+    - apply pgs_equiv_refl.
+    - intros y Hy. apply w_pgs_frame. exact Hy.
+    - apply w_pgs_nodup. exact (rep_flatnd _ _ _ R).
+    - apply w_pgs_rootlink.
+    - rewrite with_pgs_id. exact Hpg. }
+  rewrite with_pgs_id in G. exact G.
+Qed.
+
 Definition copy_ok (t' : tree) : Prop := forall C q aq lq f P,
   Rep (plug C (Node q aq lq)) f P ->
   NoDup (keys_of t') ->
@@ -1225,7 +1248,7 @@ Proof.
   destruct Hpg0 as [G1 [G2 G3]]. unfold rattrs, rkids in G1, G2, G3. simpl in G1, G2, G3.
   pose proof (rep_put_all ((q, aq, lq, []) :: C) k (with_pgs a []) l (apgs a) []) as R3. simpl app in R3.
   rewrite with_pgs_nil_back in R3.
-  eapply rep_pend_equiv; [apply R3|].
+  eapply rep_pend_equiv; [apply (rep_put_pgs ((q, aq, lq, []) :: C) k a l); apply R3|].
   - apply R2.
     + intros x Hx. destruct (Hfresh x (or_intror Hx)) as [F1 F2]. split.
       * change (plug ((q, aq, lq, []) :: C) (Node k (with_pgs a []) [])) with (plug C (Node q aq (lq ++ [Node k (with_pgs a []) []]))).
